@@ -23,7 +23,7 @@ def random_cfg(rnd, inv):
     cfgv[cl.TOL_PAD], cfgv[cl.IGN_ZERO] = pick([1, 0]), pick([1, 0])
     cfgv[cl.USE_SRV] = pick([1, 1, 0])
     cfgv[cl.STD] = pick([2006, 2013, 2020, 2020])
-    cfgv[cl.REQ_TO] = pick([-1, 5000 * U, 300 * U, 5000 * U])
+    cfgv[cl.REQ_TO] = pick([-1, 5000 * U, 300 * U, 5000 * U, 0])
     cfgv[cl.P2] = pick([1000 * U, 50 * U, 0, 1000 * U])
     cfgv[cl.P2S] = pick([5000 * U, 200 * U, 0, 5000 * U])
     cfgv[cl.HAS_CB] = pick([0, 1])
@@ -32,7 +32,7 @@ def random_cfg(rnd, inv):
     cfgv[cl.SNAP_DID] = pick([2, 2, 1, 3, 4, 8, 0, 9])
     cfgv[cl.EXT_SIZE] = pick([-1, 0, 1, 2, 5, 4095, 4096]) if inv.cfg.get(cl.EXT_SIZE) is None else inv.cfg[cl.EXT_SIZE]
     if inv.cfg.get(cl.ALGO) is None:
-        cfgv[cl.ALGO] = pick([0, 1, 2, 3, 4])
+        cfgv[cl.ALGO] = pick([0, 1, 2, 3, 4, 5, 6])
     cfgv[cl.ALGO_PRM] = pick([-1, 0, 7, 300])
     return cfgv
 
@@ -107,12 +107,23 @@ def gen(seed, n):
                 args, blobs = list(args), list(blobs)
             if inv.callid == 1 and rnd.random() < 0.3:
                 args = args[:5] + [1]
-            if rnd.random() < 0.08:
+            reps = reply_for(inv, args, blobs, h, rnd)
+            if rnd.random() < 0.1 and all(d > 0 for d, f in reps):
+                h.send_cost(rnd.choice([1, 1000, 600 * U, 6000 * U]))     # a transmission that takes time (nothing can answer before it is out)
+            x = rnd.random()
+            if x < 0.08:
                 h.spr_enter(rnd.choice([False, True, None]))
-                h.call(inv.callid, args, blobs, reply_for(inv, args, blobs, h, rnd))
+                h.call(inv.callid, args, blobs, reps)
                 h.spr_exit()
+            elif x < 0.14:
+                if rnd.random() < 0.5:
+                    h.ov_fun(b'', b'')
+                else:
+                    h.ov_fun(bytes([rnd.randrange(256)]), bytes([rnd.randrange(256)]) if rnd.random() < 0.5 else b'')
+                h.call(inv.callid, args, blobs, reps)
+                h.ov_exit()
             else:
-                h.call(inv.callid, args, blobs, reply_for(inv, args, blobs, h, rnd))
+                h.call(inv.callid, args, blobs, reps)
             if rnd.random() < 0.3:
                 h.advance(rnd.choice([1, 1000, 6000 * U]))
         yield h.case(5000, 'wide / %s' % inv.name.split('(')[0])
